@@ -346,6 +346,23 @@ def case_sequence(c):
         if dio != 'absent':
             hd['DIRECTIO'] = {'0': 0, '1': 1, 's1': '1'}[dio]
         tag = 'recording %d of %s' % (step, c['steps'])
+        failed_before = False
+        if c.get('fail_before') == step:
+            # FAULT: the recording attempted just before this one dies after its first file (the second file name is taken
+            # by a directory); it had other cards, another padding mode and another length.  What follows is a new recording.
+            blocker = stem + '.0001.raw'
+            os.mkdir(blocker)
+            try:
+                be.record(output_file_stem=stem, num_blocks=3, length_mode='num_blocks',
+                          header_dict={'FAILKEY': 77, 'DIRECTIO': 0 if dio in ('1', 's1', 'absent') else 1, 'FAILSTR': 'gone'},
+                          load_template=not template, verbose=False)
+            except Exception:
+                failed_before = True
+            finally:
+                os.rmdir(blocker)
+                for fn in guppi.list_files(stem):
+                    os.remove(fn)
+            tag += ' (after a recording that failed part-way)' if failed_before else ' (after an extra recording)'
         try:
             be.record(output_file_stem=stem, num_blocks=nb, length_mode='num_blocks', header_dict=hd,
                       load_template=template, verbose=False)
@@ -369,6 +386,8 @@ def case_sequence(c):
             for k, (kind, val) in exp_user.items():
                 if k not in b['header']:
                     V('user_card_lost', '%s: user card %s missing' % (tag, k))
+            if 'FAILKEY' in b['header'] or 'FAILSTR' in b['header']:
+                V('cards_from_failed_recording', '%s: block %d carries cards of the recording that failed before it' % (tag, bi))
         try:
             if raw_utils.get_total_blocks(stem) != nb or raw_utils.get_blocks_in_file(guppi.list_files(stem)[0]) != min(nb, 2):
                 V('count', '%s: library block counters disagree with the files' % tag, site='raw_utils.get_total_blocks')
@@ -547,6 +566,10 @@ def run(ctx):
     for a in settings:
         for b in settings:
             seqs.append(dict(box='E', steps=[list(a), list(b)], source='ant'))
+            # FAULT: a recording that dies part-way, before the first / before the second recording of the history
+            seqs.append(dict(box='E', steps=[list(a), list(b)], source='ant', fail_before=1))
+            if a == b:
+                seqs.append(dict(box='E', steps=[list(a)], source='ant', fail_before=0))
             if T:
                 for c3 in settings[::3]:
                     seqs.append(dict(box='E', steps=[list(a), list(b), list(c3)], source='arr2'))
